@@ -78,11 +78,32 @@ mutual
     | k :: ks => writableTree env s k && writableList env s ks
 end
 
+mutual
+  /-- The subtrees from the node `h` up to the root of this tree (`h`'s subtree first): indextree
+      `ancestors` with the subtrees instead of the handles. -/
+  def HTree.pathTo (h : Nat) : HTree → Option (List HTree)
+    | .node h' v ks =>
+      if h' = h then some [.node h' v ks]
+      else match HTree.pathToList h ks with
+        | some l => some (l ++ [.node h' v ks])
+        | none => none
+  def HTree.pathToList (h : Nat) : List HTree → Option (List HTree)
+    | [] => none
+    | k :: ks =>
+      match HTree.pathTo h k with
+      | some l => some l
+      | none => HTree.pathToList h ks
+end
+
 namespace Forest
 
+/-- The subtrees of `ancestors(h)`, nearest (the node itself) first, root last; `[]` for a handle
+    that is not live. -/
+def pathTo (f : Forest) (h : Nat) : List HTree :=
+  (f.roots.findSome? (HTree.pathTo h)).getD []
+
 /-- The erased subtrees of `ancestors(h)`, nearest (the node itself) first. -/
-def chain (f : Forest) (h : Nat) : List Tree :=
-  (f.ancestors h).filterMap (fun a => (f.get? a).map HTree.erase)
+def chain (f : Forest) (h : Nat) : List Tree := (f.pathTo h).map HTree.erase
 
 /-- `namespaces_in_scope(node)` (in yield order) = `prefixes_in_scope(node)` as a list. -/
 def prefixesInScope (f : Forest) (h : Nat) : List (Nat × Nat) :=
@@ -95,12 +116,13 @@ def unresolvedNamespaces (env : Env) (f : Forest) (h : Nat) : List Nat :=
   | none => []
 
 /-- `inherited_prefixes(node)`: the prefixes in scope at the parent, restricted to the namespaces
-    that are unresolved inside the node.  (The Rust value is a hash map: this list, in
+    that are unresolved inside the node (`if let Some(parent) = self.parent(node)` = the path
+    to the node has a second element).  (The Rust value is a hash map: this list, in
     `namespace_traverse` order, is one enumeration of it.) -/
 def inheritedPrefixes (env : Env) (f : Forest) (h : Nat) : List (Nat × Nat) :=
-  let prefixes := match f.parent? h with
-    | some p => f.prefixesInScope p
-    | none => []
+  let prefixes := match f.pathTo h with
+    | _ :: p :: rest => namespacesInScopeChain ((p :: rest).map HTree.erase)
+    | _ => []
   let unresolved := f.unresolvedNamespaces env h
   prefixes.filter (fun pn => unresolved.contains pn.2)
 
